@@ -399,6 +399,24 @@ func streamKeys(c *ctx) {
 					fail("key-public", "the compressed form of a generated ECDH key is not valid", describe(pk), err, "valid")
 				} else if _, err := ecdh.KeyToPublic(ck); err != nil {
 					fail("key-public", "the compressed form of a generated ECDH key does not convert", describe(ck), err, "a point")
+				} else {
+					// each public form with the optional alg member naming a key-agreement algorithm: the same point
+					ref, _ := ecdh.KeyToPublic(pk)
+					for fn, form := range map[string]key.Key{"uncompressed": pk, "compressed": ck} {
+						for _, av := range []int{iana.AlgorithmECDH_ES_HKDF_256, iana.AlgorithmECDH_SS_HKDF_512, iana.AlgorithmECDH_ES_A256KW} {
+							wa := cloneKey(form)
+							wa[iana.KeyParameterAlg] = av
+							if ecdh.CheckKey(wa) != nil {
+								continue
+							}
+							c.eval()
+							c.nontriv(fmt.Sprintf("ecdh-public+alg|%d|%s", crv, fn))
+							got, err := ecdh.KeyToPublic(wa)
+							if err != nil || ref == nil || !bytes.Equal(got.Bytes(), ref.Bytes()) {
+								fail("key-encoding", "a valid "+fn+" ECDH public key that carries the optional alg member does not convert to the same point", describe(wa), err, "the point of the key")
+							}
+						}
+					}
 				}
 			}
 		}
